@@ -105,7 +105,7 @@ BYTE_TREES = {
     'utf8x4b': dict(alpha=btoks(*[bytes([b]) for b in [0x80, 0x8f, 0x90, 0xbf, 0xc0, 0x7f, 0x22]]), prefix=b'"\xf4', suffix=b'"', opts=STRICT,
                     maxlen={'quick': 4, 'thorough': 5}),
     # syntax errors versus ill-formed UTF-8: which one is reported (C07), also between tokens
-    'mixed': dict(alpha=btoks(b'[', b']', b'1', b' ', b',', b'"', b'\xff', b'\xc3', b'\xc3\xa9', b'\xe2\x82', b'\xc0\xac', b'\xed\xa0\x80', b'x', b'\xef\xbb\xbf'),
+    'mixed': dict(alpha=btoks(b'[', b']', b'1', b' ', b',', b'"', b'\xff', b'\xc3', b'\xc3\xa9', b'\xe2\x82', b'\xc0\xac', b'\xed\xa0\x80', b'x', b'\xef\xbb\xbf', b'\xef\xbf\xbd'),
                   prefix=b'', suffix=b'', opts=STRICT, maxlen={'quick': 4, 'thorough': 6}),
     'mixedlenient': dict(alpha=btoks(b'"', b'\\uD800', b'\xff', b'\xc3\xa9', b'\xe2\x82', b'x'),
                          prefix=b'"', suffix=b'', opts=ALLOPTS, maxlen={'quick': 3, 'thorough': 4}),
